@@ -203,6 +203,9 @@ impl CanObserve<F> for Script {
 impl CanObserve<u8> for Script {
     fn observe(&mut self, _v: u8) {}
 }
+impl CanObserve<Cap> for Script {
+    fn observe(&mut self, _v: Cap) {}
+}
 impl CanSample<F> for Script {
     fn sample(&mut self) -> F {
         self.samples.pop_front().unwrap_or_else(|| {
@@ -491,6 +494,10 @@ pub struct Scenario {
     /// per batch: (log_size, width, constant columns?, point pattern)
     pub batches: Vec<Vec<(usize, usize, bool, u8)>>,
     pub data_seed: u64,
+    /// cap height of the input (base-field) MMCS: commitments are Merkle caps of 2^h entries
+    pub input_cap_height: usize,
+    /// cap height of the commit-phase (extension) MMCS
+    pub commit_cap_height: usize,
 }
 
 impl Scenario {
@@ -501,6 +508,7 @@ impl Scenario {
             "commit_pow_bits": self.commit_pow_bits, "query_pow_bits": self.query_pow_bits,
             "batches": self.batches.iter().map(|b| b.iter().map(|m| json!([m.0, m.1, m.2, m.3])).collect::<Vec<_>>()).collect::<Vec<_>>(),
             "data_seed": self.data_seed,
+            "input_cap_height": self.input_cap_height, "commit_cap_height": self.commit_cap_height,
         })
     }
     pub fn from_json(v: &Value) -> Option<Self> {
@@ -527,6 +535,9 @@ impl Scenario {
                 })
                 .collect(),
             data_seed: v["data_seed"].as_u64()?,
+            // older corpus files have no cap fields: cap height 0 (a single root)
+            input_cap_height: v["input_cap_height"].as_u64().unwrap_or(0) as usize,
+            commit_cap_height: v["commit_cap_height"].as_u64().unwrap_or(0) as usize,
         })
     }
 }
@@ -570,6 +581,8 @@ pub fn gen_scenario(rng: &mut Rng, max_log_size: usize) -> Scenario {
         query_pow_bits: rng.range(0, 4),
         batches,
         data_seed: rng.next(),
+        input_cap_height: 0,
+        commit_cap_height: 0,
     };
     // a proof without fold phase: every matrix has height one and the final polynomial is constant
     // (one in eight of the scenarios with a constant final polynomial, about 1 in 24 overall)
@@ -580,6 +593,21 @@ pub fn gen_scenario(rng: &mut Rng, max_log_size: usize) -> Scenario {
             }
         }
     }
+    // Merkle caps (seed C07-d: cap height was always 0). The commit-phase trees have log heights
+    // log_max - (arity prefix sums); the shortest is the last one, log_blowup + log_final_poly_len.
+    // `EQ` puts the cap exactly at that height (empty Merkle path, leaf hash compared with the cap
+    // entry selected by the index). The real prover asserts cap_height <= tree height, so larger
+    // picks are clipped to the shortest tree, except one in eight which is kept (the prover's
+    // refusal is then counted in the histogram as prover-panic:cap-above-shortest-tree).
+    let eq_commit = s.params.log_blowup + s.params.log_final_poly_len;
+    let eq_input = s.batches.iter().map(|b| b.iter().map(|m| m.0).max().unwrap_or(0)).min().unwrap_or(0) + s.params.log_blowup;
+    let pick = |rng: &mut Rng, eq: usize| -> usize {
+        let c = *rng.pick(&[0usize, 0, 1, 2, 3, usize::MAX, usize::MAX]);
+        let c = if c == usize::MAX { eq.min(4) } else { c };
+        if c > eq && !rng.chance(1, 8) { eq } else { c }
+    };
+    s.commit_cap_height = pick(rng, eq_commit);
+    s.input_cap_height = pick(rng, eq_input);
     s
 }
 
@@ -595,8 +623,8 @@ pub struct Honest {
 fn make_pcs(perm: &Perm, s: &Scenario) -> MyPcs {
     let hash = MyHash::new(perm.clone());
     let compress = MyCompress::new(perm.clone());
-    let val_mmcs = MyMmcs::new(hash, compress, 0);
-    let challenge_mmcs = ChallengeMmcs::new(val_mmcs.clone());
+    let val_mmcs = MyMmcs::new(hash.clone(), compress.clone(), s.input_cap_height);
+    let challenge_mmcs = ChallengeMmcs::new(MyMmcs::new(hash, compress, s.commit_cap_height));
     let fri = FriParameters {
         log_blowup: s.params.log_blowup,
         log_final_poly_len: s.params.log_final_poly_len,
@@ -866,6 +894,161 @@ pub fn run_full(fc: &FullCircuit, commitments: &[Cap], claims: &[Vec<MatClaim>],
     match runner.run() {
         Ok(_) => "ok".into(),
         Err(e) => format!("unsat:{}", variant_name(&format!("{e:?}"))),
+    }
+}
+
+// ------------------------------------------------------------------------------------------
+// "fixch" mode: real MMCS (Poseidon2 Merkle trees with caps) on both sides, challenges fixed.
+// Native: the real `verify_fri` with the real input / commit-phase MMCS and the scripted
+// challenger (alpha, betas, query indices of the honest transcript). Circuit:
+// `verify_fri_circuit(.., Some(perm))` with the same challenges as public inputs (the calling
+// convention of recursion/tests/fri.rs). Because the challenges do not move with the proof, an
+// altered cap entry / sibling row is judged by the MMCS checks alone (in full mode every cap is
+// also transcript input, so an alteration of it is refused through the challenges as well).
+
+pub struct FixchCircuit {
+    circuit: Circuit<Challenge>,
+    op_ids: Vec<NonPrimitiveOpId>,
+    log_max_height: usize,
+}
+
+pub fn native_fixch(h: &Honest, s: &Scenario, base: &Case, commitments: &[Cap], claims: &[Vec<MatClaim>], proof: &RealProof) -> String {
+    let hash = MyHash::new(h.perm.clone());
+    let compress = MyCompress::new(h.perm.clone());
+    let input_mmcs = MyMmcs::new(hash.clone(), compress.clone(), s.input_cap_height);
+    let params = FriParameters {
+        log_blowup: s.params.log_blowup,
+        log_final_poly_len: s.params.log_final_poly_len,
+        max_log_arity: s.params.max_log_arity,
+        num_queries: s.params.num_queries,
+        commit_proof_of_work_bits: 0,
+        query_proof_of_work_bits: 0,
+        mmcs: ChallengeMmcs::new(MyMmcs::new(hash, compress, s.commit_cap_height)),
+    };
+    let mut samples = VecDeque::new();
+    let push = |q: &mut VecDeque<F>, x: &Challenge| {
+        let c: &[F] = x.as_basis_coefficients_slice();
+        q.extend(c.iter().copied());
+    };
+    push(&mut samples, &base.alpha);
+    for i in 0..proof.commit_phase_commits.len() {
+        push(&mut samples, base.betas.get(i).unwrap_or(&Challenge::ZERO));
+    }
+    let mut ch = Script { samples, bits: base.queries.iter().map(|q| q.index).collect(), underflow: false };
+    let folding: TwoAdicFriFolding<Vec<BatchOpening<F, MyMmcs>>, <MyMmcs as Mmcs<F>>::Error> = TwoAdicFriFolding(PhantomData);
+    let coms = coms_with_points(commitments, claims);
+    let r = catch_unwind(AssertUnwindSafe(|| verify_fri::<_, F, Challenge, MyMmcs, ChallengeMmcs, Script>(&folding, &params, proof, &mut ch, &coms, &input_mmcs)));
+    match r {
+        Err(_) => "panic".into(),
+        Ok(Ok(())) => "ok".into(),
+        Ok(Err(e)) => format!("err:{}", variant_name(&format!("{e:?}"))),
+    }
+}
+
+pub fn build_fixch(s: &Scenario, base: &Case, commitments: &[Cap], claims: &[Vec<MatClaim>], proof: &RealProof) -> Result<FixchCircuit, String> {
+    let mut builder = CircuitBuilder::<Challenge>::new();
+    builder.enable_poseidon2_perm::<BabyBearD4Width16, _>(generate_poseidon2_trace::<Challenge, BabyBearD4Width16>, default_babybear_poseidon2_16());
+    builder.enable_recompose::<F>(generate_recompose_trace::<F, Challenge>);
+    let fri_targets = FriTargets::new(&mut builder, proof);
+    let alpha_t = builder.public_input();
+    let betas_t: Vec<Target> = (0..base.betas.len()).map(|_| builder.public_input()).collect();
+    let total: usize = fri_targets.log_arities.iter().sum();
+    let log_max_height = total + s.params.log_final_poly_len + s.params.log_blowup;
+    let bits_t: Vec<Vec<Target>> = (0..fri_targets.query_proofs.len()).map(|_| (0..log_max_height).map(|_| builder.public_input()).collect()).collect();
+    let mut ztargets: BTreeMap<usize, Target> = BTreeMap::new();
+    let mut coms_t = Vec::new();
+    for (com, b) in commitments.iter().zip(claims) {
+        let cap_t = <MerkleCapTargets<F, DIGEST_ELEMS> as Recursive<Challenge>>::new(&mut builder, com);
+        let mut mats_t = Vec::new();
+        for m in b {
+            let domain = TwoAdicMultiplicativeCoset::new(F::GENERATOR, m.log_size).unwrap();
+            let mut pv = Vec::new();
+            for (zid, _, vs) in &m.points {
+                let z_t = *ztargets.entry(*zid).or_insert_with(|| builder.public_input());
+                let f_t: Vec<Target> = (0..vs.len()).map(|_| builder.public_input()).collect();
+                pv.push((z_t, f_t));
+            }
+            mats_t.push((domain, pv));
+        }
+        coms_t.push((cap_t, mats_t));
+    }
+    let op_ids = verify_fri_circuit::<F, Challenge, RecExt, RecVal, RecWitness<F>, MerkleCapTargets<F, DIGEST_ELEMS>>(
+        &mut builder,
+        &fri_targets,
+        alpha_t,
+        &betas_t,
+        &bits_t,
+        &coms_t,
+        s.params.log_blowup,
+        Some(Poseidon2Config::BABY_BEAR_D4_W16.into()),
+    )
+    .map_err(|_| "build-err".to_string())?;
+    let circuit = builder.build().map_err(|_| "build-err".to_string())?;
+    Ok(FixchCircuit { circuit, op_ids, log_max_height })
+}
+
+pub fn run_fixch(fc: &FixchCircuit, base: &Case, commitments: &[Cap], claims: &[Vec<MatClaim>], proof: &RealProof) -> String {
+    let mut pubs = FriTargets::get_values(proof);
+    pubs.push(base.alpha);
+    pubs.extend(base.betas.iter().copied());
+    for q in &base.queries {
+        for k in 0..fc.log_max_height {
+            pubs.push(if (q.index >> k) & 1 == 1 { Challenge::ONE } else { Challenge::ZERO });
+        }
+    }
+    let mut seen = std::collections::BTreeSet::new();
+    for (com, b) in commitments.iter().zip(claims) {
+        for d in com.roots() {
+            pubs.extend(d.iter().map(|&x| Challenge::from(x)));
+        }
+        for m in b {
+            for (zid, z, vs) in &m.points {
+                if seen.insert(*zid) {
+                    pubs.push(*z);
+                }
+                pubs.extend(vs.iter().copied());
+            }
+        }
+    }
+    let privs = <FriTargets as Recursive<Challenge>>::get_private_values(proof);
+    let mut runner = fc.circuit.runner();
+    if let Err(e) = runner.set_public_inputs(&pubs) {
+        return format!("input-err:pub:{e:?}");
+    }
+    if let Err(e) = runner.set_private_inputs(&privs) {
+        return format!("input-err:priv:{e:?}");
+    }
+    if let Err(e) = p3_recursion::pcs::set_fri_mmcs_private_data::<F, Challenge, ChallengeMmcs, MyMmcs, MyHash, MyCompress, DIGEST_ELEMS>(
+        &mut runner,
+        &fc.op_ids,
+        proof,
+        Poseidon2Config::BABY_BEAR_D4_W16,
+    ) {
+        return format!("feed-err:{e}");
+    }
+    match runner.run() {
+        Ok(_) => "ok".into(),
+        Err(e) => format!("unsat:{}", variant_name(&format!("{e:?}"))),
+    }
+}
+
+/// What the cap-aware alterations need to know about the honest transcript.
+pub struct CapCtx {
+    pub indices: Vec<usize>,
+    pub log_max: usize,
+    pub schedule: Vec<usize>,
+}
+
+impl CapCtx {
+    /// log height of the folded codeword committed at phase `p`
+    fn folded_height(&self, p: usize) -> usize {
+        self.log_max - self.schedule[..=p].iter().sum::<usize>()
+    }
+    /// cap entries of a cap with `n` entries (a power of two, no taller than its tree) that some
+    /// query addresses: the top log2(n) bits of the query index
+    fn addressed(&self, n: usize) -> std::collections::BTreeSet<usize> {
+        let ch = n.max(1).ilog2() as usize;
+        self.indices.iter().map(|&i| if ch > self.log_max { 0 } else { (i & ((1usize << self.log_max) - 1)) >> (self.log_max - ch) }).collect()
     }
 }
 
@@ -1238,7 +1421,7 @@ pub fn alter_shape(c: &mut Case, kind: usize, rng: &mut Rng) -> Option<String> {
 pub const N_SHAPE_KINDS: usize = 24;
 
 /// Single-element alterations of the real proof / commitments / claims for the full mode.
-pub fn alter_full(commitments: &mut [Cap], claims: &mut [Vec<MatClaim>], proof: &mut RealProof, kind: usize, rng: &mut Rng) -> Option<String> {
+pub fn alter_full(commitments: &mut [Cap], claims: &mut [Vec<MatClaim>], proof: &mut RealProof, kind: usize, rng: &mut Rng, ctx: &CapCtx) -> Option<String> {
     let bump = |x: &mut F, rng: &mut Rng| *x += F::from_u64(1 + rng.below(P - 1));
     let nq = proof.query_proofs.len();
     match kind {
@@ -1332,6 +1515,60 @@ pub fn alter_full(commitments: &mut [Cap], claims: &mut [Vec<MatClaim>], proof: 
             commitments[k] = MerkleCap::new(roots);
             Some(format!("input cap {k} r{r} e{j}"))
         }
+        10 | 11 => {
+            // commit-phase cap: one digest element of an entry a query addresses (10) / of an entry
+            // no query addresses (11). Phases whose folded height equals the cap height (empty
+            // Merkle path) are preferred.
+            let n = proof.commit_phase_commits.len();
+            if n == 0 {
+                return None;
+            }
+            let eq: Vec<usize> = (0..n).filter(|&p| ctx.schedule.len() == n && (1usize << ctx.folded_height(p)) == proof.commit_phase_commits[p].roots().len()).collect();
+            let k = if !eq.is_empty() && rng.chance(2, 3) { *rng.pick(&eq) } else { rng.usize(n) };
+            let mut roots = proof.commit_phase_commits[k].roots().to_vec();
+            let hit = ctx.addressed(roots.len());
+            let cands: Vec<usize> = (0..roots.len()).filter(|r| hit.contains(r) == (kind == 10)).collect();
+            if cands.is_empty() {
+                return None;
+            }
+            let r = *rng.pick(&cands);
+            let j = rng.usize(DIGEST_ELEMS);
+            bump(&mut roots[r][j], rng);
+            let rel = if ctx.schedule.len() == n { format!(" folded_h={} cap_h={}", ctx.folded_height(k), roots.len().ilog2()) } else { String::new() };
+            proof.commit_phase_commits[k] = MerkleCap::new(roots);
+            Some(format!("commit-cap-{} {k} r{r} e{j}{rel}", if kind == 10 { "addressed" } else { "unaddressed" }))
+        }
+        12 | 13 => {
+            let k = rng.usize(commitments.len());
+            let mut roots = commitments[k].roots().to_vec();
+            let hit = ctx.addressed(roots.len());
+            let cands: Vec<usize> = (0..roots.len()).filter(|r| hit.contains(r) == (kind == 12)).collect();
+            if cands.is_empty() {
+                return None;
+            }
+            let r = *rng.pick(&cands);
+            let j = rng.usize(DIGEST_ELEMS);
+            bump(&mut roots[r][j], rng);
+            let ch = roots.len().ilog2();
+            commitments[k] = MerkleCap::new(roots);
+            Some(format!("input-cap-{} {k} r{r} e{j} cap_h={ch}", if kind == 12 { "addressed" } else { "unaddressed" }))
+        }
+        14 => {
+            // a sibling value of a phase picked by its folded height relative to the cap height:
+            // equal (empty Merkle path) first, then the nearest one above
+            let q = rng.usize(nq);
+            let n = proof.query_proofs[q].commit_phase_openings.len();
+            if n == 0 || ctx.schedule.len() != n || proof.commit_phase_commits.len() != n {
+                return None;
+            }
+            let caph = |p: usize| proof.commit_phase_commits[p].roots().len().max(1).ilog2() as usize;
+            let p = (0..n).filter(|&p| ctx.folded_height(p) == caph(p)).next().or_else(|| (0..n).rev().find(|&p| ctx.folded_height(p) > caph(p)))?;
+            let rel = format!("folded_h={} cap_h={}", ctx.folded_height(p), caph(p));
+            let sv = &mut proof.query_proofs[q].commit_phase_openings[p].sibling_values;
+            let k = rng.usize(sv.len());
+            bump_ef(&mut sv[k], rng);
+            Some(format!("sibling-at-cap q{q} p{p} s{k} {rel}"))
+        }
         _ => {
             let b = rng.usize(claims.len());
             let m = rng.usize(claims[b].len());
@@ -1342,7 +1579,9 @@ pub fn alter_full(commitments: &mut [Cap], claims: &mut [Vec<MatClaim>], proof: 
         }
     }
 }
-pub const N_FULL_KINDS: usize = 10;
+pub const N_FULL_KINDS: usize = 15;
+/// kinds judged in fixch mode (no PoW witnesses: the scripted challenger accepts every witness)
+pub const FIXCH_KINDS: [usize; 13] = [10, 11, 12, 13, 14, 2, 3, 0, 1, 4, 7, 8, 9];
 
 // ------------------------------------------------------------------------------------------
 
@@ -1445,7 +1684,9 @@ pub fn main(args: &crate::Args) {
         let mut arng = Rng::new(s.data_seed ^ 0xA17E);
         let honest = catch_unwind(AssertUnwindSafe(|| prove(s)));
         let Ok(h) = honest else {
-            bump(&mut hist, "prover-panic".into());
+            let eq_c = s.params.log_blowup + s.params.log_final_poly_len;
+            let eq_i = s.batches.iter().map(|b| b.iter().map(|m| m.0).max().unwrap_or(0)).min().unwrap_or(0) + s.params.log_blowup;
+            bump(&mut hist, if s.commit_cap_height > eq_c || s.input_cap_height > eq_i { "prover-panic:cap-above-shortest-tree".into() } else { "prover-panic".into() });
             continue;
         };
         let base = extract_case(s, &h);
@@ -1556,6 +1797,13 @@ pub fn main(args: &crate::Args) {
         // ---- full mode
         let gi = si.saturating_sub(n_corpus);
         if gi < n_full || origin.starts_with("corpus:") {
+            let ctx = CapCtx { indices: base.queries.iter().map(|q| q.index).collect(), log_max: schedule.iter().sum::<usize>() + s.params.log_blowup + s.params.log_final_poly_len, schedule: schedule.clone() };
+            bump(&mut hist, format!("full:input_cap_height={}", s.input_cap_height));
+            bump(&mut hist, format!("full:commit_cap_height={}", s.commit_cap_height));
+            for p in 0..schedule.len() {
+                let fh = ctx.folded_height(p);
+                bump(&mut hist, format!("full:phase_folded_height_{}_cap", if fh == s.commit_cap_height { "eq" } else if fh > s.commit_cap_height { "above" } else { "below" }));
+            }
             let nat = native_full(&h.pcs, &h.perm, &h.commitments, &h.claims, &h.proof);
             let built = catch_unwind(AssertUnwindSafe(|| build_full(s, &h.pcs, &h.commitments, &h.claims, &h.proof)));
             let (fc, berr) = match built {
@@ -1591,7 +1839,7 @@ pub fn main(args: &crate::Args) {
                     for a in 0..n_full_alt {
                         let (mut coms, mut claims, mut proof) = (h.commitments.clone(), h.claims.clone(), h.proof.clone());
                         let kind = (a + gi) % N_FULL_KINDS;
-                        if let Some(label) = alter_full(&mut coms, &mut claims, &mut proof, kind, &mut arng) {
+                        if let Some(label) = alter_full(&mut coms, &mut claims, &mut proof, kind, &mut arng, &ctx) {
                             let nat = native_full(&h.pcs, &h.perm, &coms, &claims, &proof);
                             let cir = catch_unwind(AssertUnwindSafe(|| run_full(fc, &coms, &claims, &proof))).unwrap_or_else(|_| "panic".into());
                             full_evals += 1;
@@ -1600,6 +1848,43 @@ pub fn main(args: &crate::Args) {
                             if regression && kind == 4 && (nat == "ok" || cir == "ok") {
                                 regress("full", "altered-final-poly-not-rejected-by-both", &nat, &cir, &mut violations);
                             }
+                        }
+                    }
+                }
+            }
+            // ---- fixch mode: real MMCS, fixed challenges (see the section comment above)
+            if cir == "ok" && nat == "ok" {
+                let report_fx = |nat: &str, cir: &str, label: &str, violations: &mut Vec<Value>| {
+                    if coarse(nat) != coarse(cir) || is_panic(nat) || is_panic(cir) {
+                        let class = mismatch_class("fixch", nat, cir, s, label);
+                        violations.push(json!({"property": "C07", "kind": "verdict-mismatch", "class": class,
+                            "detail": {"native": nat, "circuit": cir, "alteration": label},
+                            "replay": {"scenario": s.to_json(), "mode": "fixch", "alteration": label,
+                                "query_indices": ctx.indices, "schedule": schedule}}));
+                    }
+                };
+                let nat0 = native_fixch(&h, s, &base, &h.commitments, &h.claims, &h.proof);
+                let built = catch_unwind(AssertUnwindSafe(|| build_fixch(s, &base, &h.commitments, &h.claims, &h.proof)));
+                let (fx, cir0) = match built {
+                    Ok(Ok(fx)) => {
+                        let c = catch_unwind(AssertUnwindSafe(|| run_fixch(&fx, &base, &h.commitments, &h.claims, &h.proof))).unwrap_or_else(|_| "panic".into());
+                        (Some(fx), c)
+                    }
+                    Ok(Err(e)) => (None, e),
+                    Err(_) => (None, "panic".into()),
+                };
+                full_evals += 1;
+                bump(&mut hist, format!("fixch:honest:native={}:circuit={}", coarse(&nat0), coarse(&cir0)));
+                report_fx(&nat0, &cir0, "honest", &mut violations);
+                if let (Some(fx), true) = (&fx, cir0 == "ok" && nat0 == "ok") {
+                    for &kind in FIXCH_KINDS.iter() {
+                        let (mut coms, mut claims, mut proof) = (h.commitments.clone(), h.claims.clone(), h.proof.clone());
+                        if let Some(label) = alter_full(&mut coms, &mut claims, &mut proof, kind, &mut arng, &ctx) {
+                            let nat = native_fixch(&h, s, &base, &coms, &claims, &proof);
+                            let cir = catch_unwind(AssertUnwindSafe(|| run_fixch(fx, &base, &coms, &claims, &proof))).unwrap_or_else(|_| "panic".into());
+                            full_evals += 1;
+                            bump(&mut hist, format!("fixch:{}:native={}", label.split(' ').next().unwrap_or(""), coarse(&nat)));
+                            report_fx(&nat, &cir, &label, &mut violations);
                         }
                     }
                 }
